@@ -65,8 +65,10 @@ def gen(ctx):
 
 def run(ctx):
     A, G, Z = gen(ctx)
-    for ob in ctx.run_impl([dict(kind='copy')], 'big', shards=1, timeout=1800):
-        key = dict(kind='copy of an 85 MB array, default chunk length')
+    bigs = [dict(kind='copy'), dict(kind='widecopy')]
+    for bc, ob in zip(bigs, ctx.run_impl(bigs, 'big', shards=2, timeout=1800)):
+        key = dict(kind={'copy': 'copy of an 85 MB array, default chunk length',
+                         'widecopy': 'copy of a 2 x 80 MiB+1 array (one row exceeds the default chunk), default chunk length'}[bc['kind']])
         if 'harness_error' in ob:
             ctx.fail('harness-error', key, observed=ob)
         else:
